@@ -257,6 +257,26 @@ async def execute(gen, ops, w: SockWorld, run: Run, counters=None):
                 tr.peer_data(bytes.fromhex(op[1]))
             elif o == "wfail":
                 c.fail_write_at = c.nwrites + op[1]
+                if len(op) > 2:
+                    c.fail_exc = op[2]
+        elif o == "reset":
+            # what the heartbeat manager (or a user) does: public reset_connection()
+            tasks.append(loop.create_task(w.sock.reset_connection()))
+        elif o == "on_connect_send":
+            # a connection subscriber that submits a message from inside the connected
+            # notification (as the API classes do)
+            _, kind, polname = op[:3]
+
+            def hook(kind=kind, polname=polname):
+                pol = POLICIES[polname]
+                n = base[kind] + counters[kind]
+                counters[kind] += 1
+                msg, typ, data = make_message(gen, kind, n)
+                rec = {"serial": (kind, n), "kind": kind, "policy": pol, "typ": typ,
+                       "data": data, "outcome": "pending", "ret_seq": None, "mode": "hook"}
+                run.sends.append(rec)
+                return do_send(msg, rec, pol)
+            w.on_connect_hooks.append(hook)
         elif o == "sub_raise":
             if op[1] == "msg":
                 w.raise_in_msg_sub = bool(op[2])
